@@ -342,6 +342,16 @@ def accessor_item(item):
             for i in range(nd):
                 exp[dims_order[i]] = loc[i] + L.mpi_starts(i)[L.ranks[i]]
             obs.append(('getGlobalIndices', -1, len(glob), nd, [(i, glob[i], exp[i]) for i in range(nd)]))
+            # slice accessors: the whole local line / plane of the last one / two positions of the ordering
+            # (the view model has no rank reduction: the leading positions are addressed with length-1 slices instead of ints)
+            one = slice(0, 1)
+            if nd >= 2:
+                v1 = g.get1DSlice(*([one] * (nd - 1)))
+                obs.append(('get1DSlice', -1, zt(v1.shape[nd - 1]), L.shape[nd - 1], []))
+            if nd >= 3:
+                v2 = g.get2DSlice(*([one] * (nd - 2)))
+                obs.append(('get2DSlice', -2, zt(v2.shape[nd - 2]), L.shape[nd - 2], []))
+                obs.append(('get2DSlice', -1, zt(v2.shape[nd - 1]), L.shape[nd - 1], []))
             return obs
         return simmpi.World(size).run(rankfn)
 
@@ -433,6 +443,13 @@ def concrete_accessor_problems(canary, shape, nprocs, dims_order):
                     probs.append('getEta: wrong values for dimension %d (shape %s grid %s order %s)' % (d, shape, nprocs, dims_order))
             except Exception as e:
                 probs.append('getEta: %s: %s' % (type(e).__name__, e))
+        try:
+            if nd >= 2 and g.get1DSlice(*([0] * (nd - 1))).shape != (L.shape[nd - 1],):
+                probs.append('get1DSlice: local line has %d points, the slice %s (shape %s grid %s order %s)' % (L.shape[nd - 1], g.get1DSlice(*([0] * (nd - 1))).shape, shape, nprocs, dims_order))
+            if nd >= 3 and g.get2DSlice(*([0] * (nd - 2))).shape != (L.shape[nd - 2], L.shape[nd - 1]):
+                probs.append('get2DSlice: local plane is %s, the slice %s (shape %s grid %s order %s)' % ((L.shape[nd - 2], L.shape[nd - 1]), g.get2DSlice(*([0] * (nd - 2))).shape, shape, nprocs, dims_order))
+        except Exception as e:
+            probs.append('get1DSlice/get2DSlice: %s: %s' % (type(e).__name__, e))
         try:
             loc = [1] * nd
             got = g.getGlobalIndices(*loc)
